@@ -21,7 +21,10 @@ Ev == Trace[l]
 Is(e) == l <= Len(Trace) /\ Ev.e = e
 
 Init == \E i \in Starts : /\ l = i + 1 /\ op = Trace[i].s /\ cap = Trace[i].v /\ nvals = Trace[i].i
-          /\ inProd = 0 /\ returned = 0 /\ consumed = 0 /\ consTerm = FALSE /\ prodTerm = "none"
+          \* "tochannelsync": ToChannel over a synchronous source - the whole script (nvals values, then the terminal Trace[i].k) has been
+          \* emitted inside Subscribe; the observer must still get the channel and read all of it (C17)
+          /\ inProd = 0 /\ returned = (IF Trace[i].s = "tochannelsync" THEN Trace[i].i ELSE 0) /\ consumed = 0 /\ consTerm = FALSE
+          /\ prodTerm = (IF Trace[i].s = "tochannelsync" THEN Trace[i].k ELSE "none")
           /\ unsB = FALSE /\ unsE = FALSE /\ closeSeen = 0 /\ inCons = FALSE
 
 Step ==
@@ -34,7 +37,7 @@ Step ==
      /\ (~unsB /\ ~consTerm) => (Ev.i - consumed <= cap + 2)
      /\ UNCHANGED <<consumed, consTerm, prodTerm, unsB, unsE, closeSeen, inCons>>
   \/ /\ Is("consB") /\ ~inCons /\ ~consTerm
-     /\ (op # "tochannel") => ~unsE              \* C06: nothing is delivered once Unsubscribe has returned (what already sits in a Go channel stays readable)
+     /\ (op \notin {"tochannel", "tochannelsync"}) => ~unsE              \* C06: nothing is delivered once Unsubscribe has returned (what already sits in a Go channel stays readable)
      /\ IF Ev.k = "N"
           THEN /\ Ev.v = consumed + 1             \* FIFO: in order, nothing lost, nothing duplicated
                /\ Ev.v <= returned + (IF inProd # 0 THEN 1 ELSE 0)   \* nothing invented: the value has been emitted
@@ -51,13 +54,14 @@ Step ==
      /\ closeSeen = 0 /\ (consTerm \/ unsB)
      /\ closeSeen' = 1
      /\ UNCHANGED <<inProd, returned, consumed, consTerm, prodTerm, unsB, unsE, inCons>>
+  \/ /\ Is("handout") /\ UNCHANGED <<inProd, returned, consumed, consTerm, prodTerm, unsB, unsE, closeSeen, inCons>>
   \/ /\ Is("unsubB") /\ unsB' = TRUE /\ UNCHANGED <<inProd, returned, consumed, consTerm, prodTerm, unsE, closeSeen, inCons>>
   \/ /\ Is("unsubE") /\ unsE' = TRUE /\ UNCHANGED <<inProd, returned, consumed, consTerm, prodTerm, unsB, closeSeen, inCons>>
   \/ /\ Is("end")
      \* without an unsubscription everything that was emitted has been handed over, terminal included
      /\ (~unsB /\ prodTerm # "none") => (consTerm /\ consumed = nvals)
      /\ (~unsB /\ prodTerm = "none") => consumed = returned
-     /\ (op = "tochannel" /\ (consTerm \/ unsB)) => closeSeen = 1
+     /\ (op \in {"tochannel", "tochannelsync"} /\ (consTerm \/ unsB)) => closeSeen = 1
      /\ PrintT(<<"ACCEPT", Ev.t>>)
      /\ UNCHANGED <<inProd, returned, consumed, consTerm, prodTerm, unsB, unsE, closeSeen, inCons>>
   \* "panic" and "hang" events are explained by no action: a panic escaping to a harness goroutine or a call that never returns rejects the trace
